@@ -6,8 +6,9 @@ import WpModel.Drive.UsedCheck
 import WpModel.Drive.ShrinkFit
 import WpModel.Drive.BlockTreeV
 import WpModel.Drive.UsedShift
+import WpModel.Drive.BoxDeco
 
 def main : IO Unit :=
   Wp.Drive.runDriver [Wp.Drive.BoxModel.handle, Wp.Drive.BoxEdges.handle, Wp.Drive.Paginate.handle,
     Wp.Drive.UsedCheck.handle, Wp.Drive.ShrinkFit.handle, Wp.Drive.BlockTreeV.handle,
-    Wp.Drive.UsedShift.handle]
+    Wp.Drive.UsedShift.handle, Wp.Drive.BoxDeco.handle]
